@@ -400,6 +400,15 @@ class Interp:
             return TOP
         if name == 'builtins.enumerate':
             return list(enumerate(self._to_list(args[0])))
+        if name == 'builtins.next' and args and isinstance(args[0], (list, tuple)):
+            # a generator expression is evaluated eagerly into a list: its first element (no consumption is modelled)
+            if args[0]:
+                return args[0][0]
+            if len(args) > 1:
+                return args[1]
+            raise ARaise('StopIteration')
+        if name == 'builtins.iter' and args and isinstance(args[0], (list, tuple, set, dict)):
+            return self._to_list(args[0])
         if name == 'json.dumps' and args and not kwargs:
             def plain(x) -> bool:
                 return isinstance(x, (str, int, type(None))) or (isinstance(x, (list, tuple)) and all(plain(y) for y in x))
